@@ -318,6 +318,7 @@ func checkC01(c *Ctx, r *Report) {
 	r.rule("C01.R3", "account server applies exactly the stated amounts (shared with C07.R1/R2)", 6)
 	r.rule("C01.R5", "accounting cells of the subscriber are written only by the listed writers; the balance only by the CCR handler", 4)
 	r.rule("C01.R8", "every rating group is rated and debited under its own identifier and with numbers of full width: neither server narrows a look-up key taken from the request or a number parsed from the database (shared with C07.R7/C08.R6)", 4)
+	r.rule("C01.R9", "the clients wait the specified 5 s for an answer: the account server moves the money before it answers, so an answer that arrives within 5 s must still be taken (a shorter wait abandons a debit that has happened - the reservation is never booked)", 2)
 	r.rule("C01.R7", "the reserve step and the debit step of a rating group exclude each other within one request (the mode is not re-read after it may have been switched)", 1)
 	r.rule("C01.R6", "account server stores the balance before it answers (shared with C07.R5)", 1)
 
@@ -461,6 +462,31 @@ func checkC01(c *Ctx, r *Report) {
 
 	// ---- R3 / R6: account server
 	abmfRules(c, r, "C01.R3", "C01.R3", "", "", "C01.R6", "")
+	for _, a := range [][2]string{{"internal/abmf", "SendAccountDebitRequest"}, {"internal/rating", "SendServiceUsageRequest"}} {
+		cf := c.fn(a[0], a[1])
+		n := 0
+		eachInstr(cf, func(_ *ssa.BasicBlock, _ int, ins ssa.Instruction) {
+			sel, ok := ins.(*ssa.Select)
+			if !ok || !sel.Blocking {
+				return
+			}
+			for _, st := range sel.States {
+				call, ok := stripConv(st.Chan).(*ssa.Call)
+				if !ok || len(call.Call.Args) != 1 {
+					continue
+				}
+				if obj := calleeObj(&call.Call); obj == nil || obj.Pkg() == nil || obj.Pkg().Path() != "time" || obj.Name() != "After" {
+					continue
+				}
+				n++
+				d, isConst := constInt(call.Call.Args[0])
+				r.check(isConst && d >= 5e9, "C01.R9", fnKey(cf)+"|time-out of the wait", posOf(c, ins), "the wait for the answer lasts the specified 5 s", fmt.Sprintf("the wait for the answer ends after %.3f s instead of the specified 5 s: a server that answers later than that - but well within 5 s - has already debited the account, and the CHF, taking the request for failed, never books the reservation: the money is gone", float64(d)/1e9))
+			}
+		})
+		if n == 0 {
+			r.info("C01.R9", fnKey(cf)+"|time-out of the wait", c.rel(cf.Pos()), "the wait is not a select on time.After (C19.R6 decides whether it is bounded)")
+		}
+	}
 	abmfWidthRules(c, r, "C01.R8")
 	rfWidthRules(c, r, "C01.R8")
 
@@ -754,6 +780,7 @@ func checkC06(c *Ctx, r *Report) {
 	r.rule("C06.R3", "final-unit indication set exactly when the account server signalled TERMINATE", 1)
 	r.rule("C06.R4", "account server grants min(request, balance) (shared with C07.R1)", 4)
 	r.rule("C06.R7", "the money a grant is measured against is that of the request's own subscriber and rating group, in full width (shared with C07.R7/C08.R6)", 4)
+	r.rule("C06.R8", "the CHF turns money into units with the unit cost the rating function applied (shared with C08.R3): a smaller decoded cost grants more units than the reserved money buys", 2)
 	r.rule("C06.R6", "the reservation, unit-cost and mode cells are changed only by the accounting transitions the other rules describe, and the context that holds them is not dropped on the request path (shared with C01.R5)", 4)
 	r.rule("C06.R5", "the rating function converts reserved money into units by floor division: AllowedUnits = quota div unit cost, Price = units x unit cost (shared with C08.R2)", 2)
 
@@ -952,7 +979,8 @@ func checkC06(c *Ctx, r *Report) {
 	r.check(okAll, "C06.R3", key+"|final-unit", c.rel(f.Pos()), "set only on the edge FinalUnitIndication != nil && FinalUnitAction == TERMINATE of the account answer", why)
 
 	// ---- R4
-	abmfRules(c, r, "C06.R4", "", "", "", "", "")
+	abmfRules(c, r, "C06.R4", "C06.R4", "", "", "", "")
+	r.shareFrom(c, checkC08, map[string]string{"C08.R3": "C06.R8"})
 
 	// ---- R5: the CHF trusts the rating function to turn money into units
 	rfRules(c, r, "", "C06.R5", "", "", "C06.R5")
